@@ -14,6 +14,8 @@ pub fn units(tier: &str, _seed: u64) -> Vec<String> {
         // two systems with auxiliaries: a multi-service one and a single-service one
         "1/U:CAL:GASNATURAL;1/U:ACS:GASNATURAL;1/X;1/~O:CAL;1/~O:ACS;2/U:REF:ELECTRICIDAD;2/X",
         "2/U:REF:ELECTRICIDAD;2/X;1/U:CAL:GASNATURAL;1/U:ACS:GASNATURAL;1/X;1/~O:CAL;1/~O:ACS",
+        // two multi-service systems with auxiliaries
+        "1/U:CAL:GASNATURAL;1/U:ACS:GASNATURAL;1/X;1/~O:CAL;1/~O:ACS;5/U:CAL:ELECTRICIDAD;5/U:REF:ELECTRICIDAD;5/X;5/~O:CAL;5/~O:REF",
         // heating (positive) and cooling (negative) outputs of one system
         "1/U:CAL:ELECTRICIDAD;1/U:REF:ELECTRICIDAD;1/X;1/O:CAL;1/O:REF",
     ];
